@@ -122,6 +122,7 @@ def worlds(tier):
     ws.append({"name": "chain2-fixed-with-flags-bounds-and-overrides", "kind": "workload", "shape": "chain2", "policy": "fixed", "variance": [0, 50], "flags": True, "split": 6, "weight": 20})
     ws.append({"name": "chain2-periodic-with-flags", "kind": "workload", "shape": "chain2", "policy": "periodic", "variance": None, "flags": True, "split": 5, "weight": 10})
     ws.append({"name": "chain2-fixed-replicated", "kind": "workload", "shape": "chain2", "policy": "fixed", "variance": [0, 0], "flags": True, "replication": 2, "split": 5, "weight": 10})
+    ws.append({"name": "fork3-slo-nodes-with-override_slo-flag", "kind": "workload", "shape": "fork-slo", "policy": "fixed", "variance": None, "flags": True, "override_slo": True, "split": 6, "weight": 20})
     ws.append({"name": "workers", "kind": "workers", "split": 4})
     if tier == "thorough":
         ws.append({"name": "cond4-closed-loop", "kind": "workload", "shape": "cond", "policy": "closed_loop", "variance": [0, 50], "split": 7, "weight": 60})
@@ -225,7 +226,8 @@ def run_workload(env, w):
     if w.get("flags"):
         horizon = env.int("horizon", 0, 2 ** 22)
         flags = types.SimpleNamespace(log_dir=None, log_file_name=None, log_level="debug", override_poisson_arrival_rate=0.0, override_gamma_coefficient=0.0,
-                                      override_arrival_period=0, override_num_invocation=0, unique_work_profiles=False, replication_factor=rep, override_slo=0,
+                                      override_arrival_period=0, override_num_invocation=0, unique_work_profiles=False, replication_factor=rep,
+                                      override_slo=env.int("override_slo", 0, 2 ** 20) if w.get("override_slo") else 0,
                                       loop_timeout=horizon, min_deadline_variance=0, max_deadline_variance=0, min_deadline=env.int("min_deadline", 0, 2 ** 21),
                                       max_deadline=env.int("max_deadline", 0, 2 ** 22), use_branch_predicated_deadlines=False, resolve_conditionals_at_submission=False,
                                       decompose_deadlines=False)
@@ -257,6 +259,8 @@ def run_workload(env, w):
                     continue
                 env.require("C19:jobs-and-edges", [c.name for c in jg.get_children(j)] == list(n.get("children", [])), n["name"])
                 exp_slo = EventTime(n["slo"], US) if "slo" in n else EventTime.invalid()
+                if flags is not None and flags.override_slo > 0:  # the command-line override replaces every per-node slo
+                    exp_slo = EventTime(flags.override_slo, US)
                 env.require("C19:per-node-fields", sand(j.conditional == bool(n.get("conditional", False)), j.terminal == bool(n.get("terminal", False)),
                                                         j.probability == n.get("probability", 1.0), j.slo == exp_slo), f"{jgname}/{n['name']}: slo {j.slo} expected {exp_slo}")
                 pt = [p for p in profs if p["name"] == n["work_profile"]][0]
